@@ -53,10 +53,10 @@ def mkTree (d : DState) : TreeFn Nat Float := fun tp qs _ =>
     let rows := qs.map (fun q => (tp.zipIdx.filterMap (fun (c, j) => (d.rel.get? (c, q)).map (fun x => (j, x)))))
     (rows.map (·.map Prod.fst), rows.map (·.map Prod.snd))
 
-def mkShuf (d : DState) : Nat → List Nat → List Nat := fun k _ =>
+def mkShuf (d : DState) : Nat → List Nat → List Nat := fun k pts =>
   match d.shufs.find? (fun x => x.1 == k) with
-  | some x => x.2
-  | none => [1000000000]
+  | some x => if x.2.length == pts.length then x.2 else List.range pts.length
+  | none => List.range pts.length     -- a construction the real object did not make: any permutation will do
 
 def parseCell (s : String) : Option (Cell Nat) :=
   match s.splitOn "/" with
